@@ -48,7 +48,7 @@ def plan(tier, seed):
 
 def mandatory(tier):
     out = [f"loss/{n}" for n in POINTWISE + ["ncc_loss", "lcc_loss", "wlcc_loss", "mi_loss", "nmi_loss", "dice", "tversky"]]
-    out += [f"mask_shape/{m}" for m in MASK_SHAPES] + ["modules", "D/2", "D/3"]
+    out += [f"mask_shape/{m}" for m in MASK_SHAPES] + ["modules", "D/2", "D/3", "dice/absent_label"]
     return out
 
 
@@ -236,6 +236,14 @@ def run_item(ctx, item):
         close("dice_definition_on_binary_input", sc, want, "dice/definition")
         close("dice_loss_is_one_minus_score", LF.dice_loss(seg, seg2, reduction="none"), 1 - sc, "dice/loss")
         close("dice_loss_of_identical_is_zero", LF.dice_loss(seg, seg), torch.zeros(()), "dice/identity")
+        # a label absent from both segmentations (empty channel, all-background item): still identical inputs
+        e = seg.clone()
+        e[:, int(rng.integers(0, C))] = 0
+        e[int(rng.integers(0, N))] = 0
+        ctx.bucket("dice/absent_label")
+        close("dice_of_identical_segmentations_with_absent_label_is_one", LF.dice_score(e, e, reduction="none"), torch.ones(N, C), "dice/identity")
+        close("dice_loss_of_identical_with_absent_label_is_zero", LF.dice_loss(e, e), torch.zeros(()), "dice/identity")
+        close("tversky_of_identical_with_absent_label_is_one", LF.tversky_index(e, e, alpha=0.5, beta=0.5, reduction="none"), torch.ones(N, C), "tversky/identity")
         close("dice_mean", LF.dice_score(seg, seg2), sc.double().mean(), "dice/reduction")
         close("dice_sum", LF.dice_score(seg, seg2, reduction="sum"), sc.double().sum(), "dice/reduction")
         scw = LF.dice_score(seg, seg2, weight=w, reduction="none")
